@@ -211,6 +211,15 @@ def cross_ro():
         "expcone z": lambda A, B, c: rsome.expcone(A["y"], A["x"][0], B["y"]),
         "kldiv q": lambda A, B, c: rsome.kldiv(A["x"], B["x"], 0.1),
         "maxof": lambda A, B, c: rsome.maxof(A["x"][0], B["x"][0]),
+        "maxof foreign robust piece": lambda A, B, c: rsome.maxof(A["y"] * A["z"][0], B["y"] * B["z"][0]),
+        "maxof foreign piece beside a number": lambda A, B, c: rsome.maxof(A["y"], 1, B["y"]),
+        "maxof foreign rule piece": lambda A, B, c: (B["ld"].adapt(B["z"]), rsome.maxof(A["y"], B["ld"][0]))[1],
+        "minof foreign piece": lambda A, B, c: rsome.minof(A["y"], B["y"]) >= 0,
+        "Convex.__ge__ foreign (reflected)": lambda A, B, c: B["y"] >= rsome.norm(A["x"], 2),
+        "Affine.__ge__ foreign atom": lambda A, B, c: A["y"] >= abs(B["y"]),
+        "plog foreign scale": lambda A, B, c: rsome.plog(A["y"], B["y"]) >= 1,
+        "expcone y": lambda A, B, c: rsome.expcone(B["y"], A["x"][0], 1),
+        "expcone x (array y)": lambda A, B, c: rsome.expcone(A["x"], B["y"], 1),
         "Convex.__add__ foreign": lambda A, B, c: abs(A["y"]) + B["y"],
         "Convex.__le__ foreign": lambda A, B, c: abs(A["y"]) <= B["y"],
         "PiecewiseConvex.__add__ foreign": lambda A, B, c: rsome.maxof(A["y"], 1) + B["y"],
@@ -290,6 +299,36 @@ def cross_dro():
         "DecConvex.__add__ foreign": lambda A, B, c: abs(A["y"]) + B["y"],
         "concat dro": lambda A, B, c: lp.concat([A["x"], B["x"]]),
         "maxof dro": lambda A, B, c: rsome.maxof(A["y"], B["y"]),
+        # atoms and cones with ONE argument from the other model (both models have the same columns, so nothing fails by size)
+        "expcone dro foreign x": lambda A, B, c: rsome.expcone(A["y"], B["x"][1], 1),
+        "expcone dro foreign y": lambda A, B, c: rsome.expcone(B["y"], A["x"][1], 1),
+        "expcone dro foreign z": lambda A, B, c: rsome.expcone(A["y"], A["x"][1], B["x"][0]),
+        "expcone dro foreign x (array y)": lambda A, B, c: rsome.expcone(A["x"], B["y"], 1),
+        "rsocone dro foreign y": lambda A, B, c: rsome.rsocone(A["x"], B["y"], A["y"]),
+        "rsocone dro foreign z": lambda A, B, c: rsome.rsocone(A["x"], A["y"], B["y"]),
+        "kldiv dro foreign q": lambda A, B, c: rsome.kldiv(A["x"], B["x"], 0.1),
+        "pexp dro foreign scale": lambda A, B, c: rsome.pexp(A["y"], B["y"]) <= 1,
+        "plog dro foreign scale": lambda A, B, c: rsome.plog(A["y"], B["y"]) >= 1,
+        "DecConvex.__le__ foreign": lambda A, B, c: abs(A["y"]) <= B["y"],
+        "DecConvex.__ge__ foreign (reflected)": lambda A, B, c: B["y"] >= rsome.norm(A["x"], 2),
+        "DecAffine.__le__ foreign atom": lambda A, B, c: A["y"] >= abs(B["y"]),
+        "maxof dro foreign robust piece": lambda A, B, c: rsome.maxof(A["y"] * A["z"][0], B["y"] * B["z"][0]),
+        "E(maxof) dro foreign robust piece": lambda A, B, c: rsome.E(rsome.maxof(A["y"] * A["z"][0], B["y"] * B["z"][0])) <= 1,
+        "maxof dro foreign piece beside a number": lambda A, B, c: rsome.maxof(A["y"], 1, B["y"]),
+        "DecRoAffine.__le__ foreign rhs": lambda A, B, c: (A["x"] @ A["z"]) <= B["y"],
+        "DecAffine.__le__ foreign rhs": lambda A, B, c: A["x"] <= B["x"],
+        "DecAffine.__eq__ foreign rhs": lambda A, B, c: A["x"] == B["x"],
+        "RandVar.__add__ foreign decision": lambda A, B, c: A["z"] + B["x"],
+        # ambiguity sets of the other model attached to objectives / constraints of every kind
+        "Model.minsup foreign ambiguity, objective without randomness": lambda A, B, c: (A["m"].minsup(A["y"], B["m"].ambiguity()), Formulate(A["m"]))[1],
+        "Model.maxinf foreign ambiguity, objective without randomness": lambda A, B, c: (A["m"].maxinf(A["y"], B["m"].ambiguity()), Formulate(A["m"]))[1],
+        "Model.minsup foreign ambiguity with supports": lambda A, B, c: (lambda f: (f.suppset(B["z"] <= 1, B["z"] >= -1), A["m"].minsup(A["y"], f), Formulate(A["m"]))[2])(B["m"].ambiguity()),
+        "Model.minsup foreign ambiguity, robust objective": lambda A, B, c: (A["m"].minsup(A["x"] @ A["z"], B["m"].ambiguity()), Formulate(A["m"]))[1],
+        "Model.maxinf foreign ambiguity, expectation": lambda A, B, c: (A["m"].maxinf(rsome.E(A["x"] @ A["z"]), B["m"].ambiguity()), Formulate(A["m"]))[1],
+        "Model.minsup foreign ambiguity, E(maxof)": lambda A, B, c: (A["m"].minsup(rsome.E(rsome.maxof(A["y"] * A["z"][0], A["y"])), B["m"].ambiguity()), Formulate(A["m"]))[1],
+        "DecExpConstr.forall foreign ambiguity": lambda A, B, c: (rsome.E(A["x"] @ A["z"]) <= 1).forall(B["m"].ambiguity()),
+        "ExpPWConstr.forall foreign ambiguity": lambda A, B, c: (rsome.E(rsome.maxof(A["y"] * A["z"][0], A["y"])) <= 1).forall(B["m"].ambiguity()),
+        "DecLinConstr.forall foreign ambiguity": lambda A, B, c: (A["x"].sum() <= 1).forall(B["m"].ambiguity()),
     }
     for name, f in amb.items():
         out += _raises("rsome.dro/lp:" + name.split(" ")[0], name, P, f)
